@@ -361,7 +361,7 @@ class _Forward(Contract):
 @contract
 class SingleInstanceForward(_Forward):
     target = "sleap_nn.inference.single_instance.SingleInstanceInferenceModel.forward"
-    props = ("C02", "C12")
+    props = ("C02",)
 
     def inputs(self, c, case):
         B, N, K, stride, sigma, thr, input_scale, eff = self._common(c)
@@ -412,7 +412,7 @@ class SingleInstanceForward(_Forward):
 @contract
 class FindInstancePeaksForward(_Forward):
     target = "sleap_nn.inference.topdown.FindInstancePeaks.forward"
-    props = ("C02", "C12")
+    props = ("C02",)
     cases = ("stride1", "padded")
 
     def inputs(self, c, case):
